@@ -103,6 +103,11 @@ type srvOpts struct {
 
 func startWsServer(o srvOpts) *srvCtx {
 	c := &srvCtx{}
+	c.s = buildWsServer(o, c)
+	return listenWsServer(o, c)
+}
+
+func buildWsServer(o srvOpts, c *srvCtx) ws.Server {
 	s := ws.NewServer()
 	for _, p := range o.supported {
 		s.AddSupportedSubprotocol(p)
@@ -142,27 +147,36 @@ func startWsServer(o srvOpts) *srvCtx {
 		}
 		return nil
 	})
-	c.s = s
-	go s.Start(0, "/{id}")
-	ok := waitCond(3*time.Second, func() bool {
-		defer func() { _ = recover() }()
-		a := s.Addr()
-		if a == nil {
-			return false
-		}
-		c.port = a.Port
-		// the listener is up once Addr is set; make sure Serve accepts
-		conn, err := net.DialTimeout("tcp", fmt.Sprintf("127.0.0.1:%d", a.Port), 200*time.Millisecond)
+	return s
+}
+
+func listenWsServer(o srvOpts, c *srvCtx) *srvCtx {
+	// a free port chosen here (Addr() is not synchronised with Start: polling it would be a race of the harness's making);
+	// another process may grab the port between the probe and Start: try again with a new server object
+	for attempt := 0; attempt < 6; attempt++ {
+		ln, err := net.Listen("tcp", "127.0.0.1:0")
 		if err != nil {
-			return false
+			continue
 		}
-		_ = conn.Close()
-		return true
-	})
-	if !ok {
-		panic("HARNESS: ws server did not start")
+		c.port = ln.Addr().(*net.TCPAddr).Port
+		_ = ln.Close()
+		go c.s.Start(c.port, "/{id}")
+		ok := waitCond(1500*time.Millisecond, func() bool {
+			conn, err := net.DialTimeout("tcp", fmt.Sprintf("127.0.0.1:%d", c.port), 200*time.Millisecond)
+			if err != nil {
+				return false
+			}
+			_ = conn.Close()
+			return true
+		})
+		if ok {
+			return c
+		}
+		// not listening (port taken): a fresh server with the same configuration
+		c2 := buildWsServer(o, c)
+		c.s = c2
 	}
-	return c
+	panic("HARNESS: ws server did not start")
 }
 
 func (c *srvCtx) url(id string) string { return fmt.Sprintf("ws://127.0.0.1:%d/%s", c.port, id) }
